@@ -6,6 +6,7 @@ import ast
 from ..cfg import CFG, Node, iter_own
 from ..effects import access_path
 from ..loader import AnalysisError, FuncInfo, dotted, walk_own
+from .discharge import undischarged_raises
 from .common import Anchors, call_name, def_use_closure, names_in, self_attr
 from .tables import (
     enclosing_loops,
@@ -119,7 +120,13 @@ def node_raise_reasons(ctx, eff: Effects, f: FuncInfo, cfg: CFG, n: Node, delega
             c = a.callee(f, e)
             if c.kind == "ext" and c.name in PURE_DETERMINISTIC and delegate is not None and _dominated_identical_pure_call(ctx, f, e, delegate, delegate_call):
                 continue
-            reasons += a.call_may_raise(f, e)
+            base = a.call_may_raise(f, e)
+            if base and c.kind == "func" and not c.func.is_lambda:
+                # drop raise sites of the callee that the caller has already ruled out
+                rest = undischarged_raises(ctx, f, cfg, n, e, c.func, guard=an.guard)
+                reasons += [f"call {c.func.qualname}: {rest[0]}"] if rest else []
+            else:
+                reasons += base
         elif isinstance(e, ast.Await):
             reasons.append("await may raise")
         elif isinstance(e, ast.Subscript) and isinstance(e.ctx, ast.Load):
